@@ -488,11 +488,11 @@ fn run(opts: &Opts, acc: &mut Acc) {
             acc.fail(f);
         }
     }
-    let n = opts.tier.pick(30_000, 600_000);
+    let n = opts.tier.pick(300_000, 3_000_000);
     random_genomes(acc, opts, "programs", n, 400, |gn, a| check_generated(gn, a));
-    let n = opts.tier.pick(15_000, 300_000);
+    let n = opts.tier.pick(200_000, 2_000_000);
     random_genomes(acc, opts, "controlflow", n, 200, |gn, a| check_cf(gn, a));
-    let n = opts.tier.pick(30_000, 1_000_000);
+    let n = opts.tier.pick(300_000, 3_000_000);
     random_genomes(acc, opts, "vm", n, 120, |gn, a| {
         let mut g = G::new(gn);
         let p = gen_ins_seq(&mut g);
